@@ -759,3 +759,108 @@ def gen_tzstrings(rng, n):
             pass
         for via in vias:
             yield {"op": "tzstring", "a": {"s": list(s), "via": via}}
+
+
+# ---- corpus (C08, C03, C10) ----
+import os, struct
+CORPUS = os.path.join(os.path.dirname(os.path.dirname(os.path.abspath(__file__))), "corpus", "tzdata")
+
+
+def corpus_files():
+    out = []
+    for root, _, files in os.walk(CORPUS):
+        for f in files:
+            p = os.path.join(root, f)
+            out.append(os.path.relpath(p, CORPUS))
+    return sorted(out)
+
+
+INTERESTING_FILES = ["Africa/Casablanca", "Asia/Gaza", "America/Godthab", "America/Nuuk", "America/Adak", "Europe/Dublin", "Asia/Tbilisi", "Europe/Moscow", "Asia/Pyongyang",
+                     "America/New_York", "Australia/Lord_Howe", "Antarctica/Troll", "Asia/Jerusalem", "America/Santiago", "Pacific/Apia", "right/UTC", "right/Europe/London",
+                     "right/America/New_York", "Etc/UTC", "Factory", "EST5EDT", "Pacific/Kiritimati", "Africa/Monrovia", "Asia/Kathmandu"]
+
+
+def parse_tzif_times(data):
+    """transition times of the block tz-rs must use (generator-side, to aim probes)"""
+    def hdr(p):
+        ver = data[p + 4]
+        c = struct.unpack(">6I", data[p + 20:p + 44])
+        return ver, c
+    ver, (isut, isstd, leap, time, typ, char) = hdr(0)
+    p = 44
+    if ver == 0:
+        return [struct.unpack(">i", data[p + 4 * i:p + 4 * i + 4])[0] for i in range(time)], []
+    p += time * 4 + time + typ * 6 + char + leap * 8 + isstd + isut
+    ver, (isut, isstd, leap, time, typ, char) = hdr(p)
+    p += 44
+    times = [struct.unpack(">q", data[p + 8 * i:p + 8 * i + 8])[0] for i in range(time)]
+    pl = p + time * 8 + time + typ * 6 + char
+    leaps = [struct.unpack(">qi", data[pl + 12 * i:pl + 12 * i + 12]) for i in range(leap)]
+    return times, leaps
+
+
+def corpus_event(rel):
+    data = open(os.path.join(CORPUS, rel), "rb").read()
+    return {"op": "tzif", "a": {"bytes": list(data)}, "g": 1, "file": rel}, data
+
+
+def select_files(rng, n):
+    files = corpus_files()
+    fixed = [f for f in INTERESTING_FILES if f in files]
+    rest = [f for f in files if f not in fixed]
+    return fixed[: max(0, n // 2)] + rng.sample(rest, max(0, min(len(rest), n - min(len(fixed), n // 2))))
+
+
+def gen_corpus_decode(rng, files):
+    for rel in files:
+        ev, _ = corpus_event(rel)
+        yield ev
+
+
+def mutate_file(rng, data):
+    """single-field corruptions of a real file: header counts, version, magic, type bytes, truncation, appended bytes"""
+    b = bytearray(data)
+    k = rng.randrange(10)
+    ver = data[4]
+    second = 0
+    if ver != 0:
+        c = struct.unpack(">6I", data[20:44])
+        second = 44 + c[3] * 4 + c[3] + c[4] * 6 + c[5] + c[2] * 8 + c[1] + c[0]
+    base = rng.choice([0, second])
+    if k == 0:
+        i = rng.randrange(6); j = (i + rng.randrange(1, 6)) % 6           # swap two header counts
+        ci, cj = b[base + 20 + 4 * i: base + 24 + 4 * i], b[base + 20 + 4 * j: base + 24 + 4 * j]
+        b[base + 20 + 4 * i: base + 24 + 4 * i], b[base + 20 + 4 * j: base + 24 + 4 * j] = cj, ci
+    elif k == 1:
+        i = rng.randrange(6)
+        v = struct.unpack(">I", b[base + 20 + 4 * i: base + 24 + 4 * i])[0]
+        v = rng.choice([0, 1, max(0, v - 1), v + 1, 2**31, 2**32 - 1])
+        b[base + 20 + 4 * i: base + 24 + 4 * i] = struct.pack(">I", v)
+    elif k == 2:
+        b[base + 4] = rng.choice([0, 0x31, 0x32, 0x33, 0x34, 1, 255])
+    elif k == 3:
+        b[base + rng.randrange(4)] ^= 1 << rng.randrange(8)
+    elif k == 4:
+        del b[rng.randrange(len(b)):]
+    elif k == 5:
+        b += bytes([rng.choice([0, 10, 32, 65])])
+    elif k == 6 and len(b) > 50:
+        b[rng.randrange(44, len(b))] = rng.randrange(256)
+    elif k == 7 and len(b) > 2:
+        b[-1] = rng.choice([0, 32, 65, 255]) if rng.random() < 0.5 else b[-1]
+        if rng.random() < 0.5:
+            b[-2:] = b"\n\n"
+    elif k == 8:
+        pos = rng.randrange(len(b)); b[pos:pos] = bytes([rng.randrange(256)])
+    else:
+        pos = rng.randrange(len(b)); del b[pos]
+    return bytes(b)
+
+
+def gen_corpus_mutations(rng, files, per_file):
+    for rel in files:
+        data = open(os.path.join(CORPUS, rel), "rb").read()
+        if len(data) > 4000:
+            continue
+        for _ in range(per_file):
+            yield {"op": "tzif", "a": {"bytes": list(mutate_file(rng, data))}, "g": 1, "file": rel}
